@@ -178,10 +178,16 @@ Lemma finish_inv c ipq sch login host port urlpath u :
   ws_path c urlpath = Some (u_path u) /\
   (u_host u, u_num u) = set_host ipq h3 /\
   has_dotdot h3 = false /\ starts_dot h3 = false /\
-  (c_check c = true -> forallb (hostchars c) (lower_host c host) = true).
+  (c_check c = true -> forallb (hostchars c) (lower_host c host) = true) /\
+  h3 <> [] /\ lenN h3 < uri_SQUIDHOSTNAMELEN.
 Proof.
   intros H h3. unfold finish in H. fold h3 in H.
   destruct (c_check c && negb (forallb (hostchars c) (lower_host c host))) eqn:Hc; [discriminate|].
+  destruct (is_nil h3 || (uri_SQUIDHOSTNAMELEN <=? lenN h3)) eqn:Hn; [discriminate|].
+  apply orb_false_iff in Hn as [Hn1 Hn2].
+  assert (Hne : h3 <> []) by (intros E; rewrite E in Hn1; discriminate).
+  assert (Hlt : lenN h3 < uri_SQUIDHOSTNAMELEN) by (apply N.leb_gt; exact Hn2).
+  clear Hn1 Hn2.
   destruct (has_dotdot h3 || starts_dot h3) eqn:Hd; [discriminate|].
   destruct ((port <? 1) || (65535 <? port)) eqn:Hp; [discriminate|].
   destruct (ws_path c urlpath) as [p|] eqn:Hw; [|discriminate].
@@ -264,13 +270,13 @@ Section WithOracle.
 
   Lemma parse_inv c m raw u :
     parse c ipq m raw = Some u ->
-    u = star_uri \/
+    (u = star_uri /\ list_eqb raw uri_asterisk = true) \/
     (exists sch login h port urlpath, finish c ipq sch login h port urlpath = Some u) \/
     s_id (u_scheme u) = uri_PROTO_URN.
   Proof.
     unfold parse. destruct (uri_MAX_URL - 1 <? lenN raw); [discriminate|].
-    destruct (is_star_method m && list_eqb raw uri_asterisk).
-    { intros H. inversion H. left. reflexivity. }
+    destruct (is_star_method m && list_eqb raw uri_asterisk) eqn:Est.
+    { intros H. inversion H. left. apply andb_true_iff in Est as [_ Est]. split; [reflexivity| exact Est]. }
     destruct (is_connect m).
     - destruct (parse_host_connect ipq raw) as [[rawHost r1]|]; [|discriminate].
       destruct (tok_skipChar colon r1) as [[|] r2]; [|discriminate].
@@ -293,7 +299,7 @@ Section WithOracle.
     no_upper (u_host u).
   Proof.
     intros HC H Hurn. apply parse_inv in H. destruct H as [H|[H|H]]; [| |contradiction].
-    - subst u. reflexivity.
+    - destruct H as [-> _]. reflexivity.
     - destruct H as [sch [login [h [port [urlpath H]]]]]. apply finish_inv in H.
       destruct H as [_ [_ [_ [_ [_ [Hs _]]]]]].
       replace (u_host u) with (fst (set_host ipq (strip_td (lower_host c h)))) by (rewrite <- Hs; reflexivity).
@@ -309,27 +315,30 @@ Section WithOracle.
     exists p, u_port u = Some p /\ 1 <= p <= 65535.
   Proof.
     intros H Hurn. apply parse_inv in H. destruct H as [H|[H|H]]; [| |contradiction].
-    - subst u. exists 80. split; [apply star_port| lia].
+    - destruct H as [-> _]. exists 80. split; [apply star_port| lia].
     - destruct H as [sch [login [h [port [urlpath H]]]]]. apply finish_inv in H.
       destruct H as [_ [_ [Hp [Hr _]]]]. exists port. split; assumption.
   Qed.
 
-  (* (1c) accepted, host not an IP literal, not cut at 255 bytes, not empty => no empty labels *)
-  Theorem accepted_host_labels_partial c m raw u :
+  (* (1c) accepted (not the asterisk-form), host not an IP literal => non-empty labels only *)
+  Theorem accepted_host_labels c m raw u :
     parse c ipq m raw = Some u -> s_id (u_scheme u) <> uri_PROTO_URN ->
-    u_num u = false -> u_host u <> [] -> lenN (u_host u) < uri_SQUIDHOSTNAMELEN - 1 ->
-    no_empty_label (u_host u) = true.
+    list_eqb raw uri_asterisk = false -> u_num u = false ->
+    u_host u <> [] /\ no_empty_label (u_host u) = true /\ lenN (u_host u) < uri_SQUIDHOSTNAMELEN.
   Proof.
-    intros H Hurn Hnum Hne Hlen. apply parse_inv in H. destruct H as [H|[H|H]]; [| |contradiction].
-    - subst u. cbn [u_host star_uri] in Hne. contradiction.
+    intros H Hurn Hstar Hnum. apply parse_inv in H. destruct H as [H|[H|H]]; [| |contradiction].
+    - destruct H as [_ E]. rewrite E in Hstar. discriminate.
     - destruct H as [sch [login [h [port [urlpath H]]]]]. apply finish_inv in H.
-      destruct H as [_ [_ [_ [_ [_ [Hs [Hdd [Hsd _]]]]]]]].
+      destruct H as [_ [_ [_ [_ [_ [Hs [Hdd [Hsd [_ [Hne Hlt]]]]]]]]]].
       set (h3 := strip_td (lower_host c h)) in *.
       unfold set_host in Hs.
       assert (E : u_host u = h3).
-      { destruct (ipq h3); inversion Hs as [[Eh En]]; try (rewrite Eh in Hlen; rewrite Eh; apply takeN_short, Hlen).
+      { destruct (ipq h3); inversion Hs as [[Eh En]];
+          [rewrite Eh; apply takeN_all; clear - Hlt; unfold uri_SQUIDHOSTNAMELEN in Hlt; lia
+          |rewrite Eh; apply takeN_all; clear - Hlt; unfold uri_SQUIDHOSTNAMELEN in Hlt; lia |].
         rewrite Hnum in En. discriminate. }
-      rewrite E in *. apply labels_ok; try assumption. unfold h3. apply strip_td_idem.
+      rewrite E. split; [exact Hne|]. split; [|exact Hlt].
+      apply labels_ok; try assumption. unfold h3. apply strip_td_idem.
   Qed.
 End WithOracle.
 
@@ -343,39 +352,45 @@ Proof. intros q c H. discriminate. Qed.
 Definition cfg_default : cfg := {| c_check := false; c_underscore := true; c_ws := WsStrip |}.
 Definition m_get : N := 1.
 
-(* "http://./" *)
-Definition w_empty_host : bytes := [104;116;116;112;58;47;47;46;47].
-Theorem no_empty_labels_refuted_empty_host :
-  exists ipq c m raw u, ipq_contract ipq /\ parse c ipq m raw = Some u /\
-    s_id (u_scheme u) <> uri_PROTO_URN /\ u_num u = false /\ no_empty_label (u_host u) = false.
-Proof.
-  exists no_ip, cfg_default, m_get, w_empty_host. eexists.
-  split; [exact no_ip_contract|]. split; [vm_compute; reflexivity|].
-  split; [vm_compute; discriminate|]. split; reflexivity.
-Qed.
-
-(* "http://" 254 x 'a' ".b/" : Uri::host() keeps 255 bytes, the last one is the dot *)
-Definition w_long_host : bytes := [104;116;116;112;58;47;47] ++ repeat 97 254 ++ [46;98;47].
-Theorem no_empty_labels_refuted_truncated_host :
-  exists ipq c m raw u, ipq_contract ipq /\ parse c ipq m raw = Some u /\
-    s_id (u_scheme u) <> uri_PROTO_URN /\ u_num u = false /\ u_host u <> [] /\
-    no_empty_label (u_host u) = false.
-Proof.
-  exists no_ip, cfg_default, m_get, w_long_host. eexists.
-  split; [exact no_ip_contract|]. split; [vm_compute; reflexivity|].
-  split; [vm_compute; discriminate|]. split; [reflexivity|]. split; [vm_compute; discriminate| vm_compute; reflexivity].
-Qed.
-
-(* F14: "http://example.com/a?b=c" *)
-Definition w_query : bytes :=
-  [104;116;116;112;58;47;47;101;120;97;109;112;108;101;46;99;111;109;47;97;63;98;61;99].
-Theorem canonical_reparse_refuted_query :
+(* "http://example.com/a#f": the fragment delimiter is still percent-encoded *)
+Definition w_fragment : bytes :=
+  [104;116;116;112;58;47;47;101;120;97;109;112;108;101;46;99;111;109;47;97;35;102].
+Theorem canonical_reparse_refuted_fragment :
   exists ipq c m raw u u', ipq_contract ipq /\ parse c ipq m raw = Some u /\
     parse c ipq m (canonical m u) = Some u' /\ u_path u' <> u_path u.
 Proof.
-  exists no_ip, cfg_default, m_get, w_query. eexists. eexists.
+  exists no_ip, cfg_default, m_get, w_fragment. eexists. eexists.
   split; [exact no_ip_contract|]. split; [vm_compute; reflexivity|].
   split; [vm_compute; reflexivity| vm_compute; discriminate].
+Qed.
+
+(* the query delimiter is kept now: "http://example.com/a?b=c" re-parses to itself *)
+Definition w_query : bytes :=
+  [104;116;116;112;58;47;47;101;120;97;109;112;108;101;46;99;111;109;47;97;63;98;61;99].
+Example query_roundtrip :
+  exists u, parse cfg_default no_ip m_get w_query = Some u /\ canonical m_get u = w_query /\
+            parse cfg_default no_ip m_get (canonical m_get u) = Some u.
+Proof. eexists. split; [vm_compute; reflexivity|]. split; vm_compute; reflexivity. Qed.
+
+(* "urn:12:xyz" with an oracle that reads "12" as 0.0.0.12 (as inet_aton does) and satisfies the
+   contract: the canonical form "urn:0.0.0.12:xyz" is rejected *)
+Definition t_12 : bytes := [49;50].
+Definition t_00012 : bytes := [48;46;48;46;48;46;49;50].
+Definition ip_12 : bytes -> ipres :=
+  fun q => if list_eqb q t_12 || list_eqb q t_00012 then IpAddr t_00012 else IpNo.
+Lemma ip_12_contract : ipq_contract ip_12.
+Proof.
+  intros q c H. unfold ip_12 in H. destruct (list_eqb q t_12 || list_eqb q t_00012); [|discriminate].
+  inversion H. subst c. left. unfold v4_text, plain_host.
+  split; [split; [discriminate| repeat split; vm_compute; reflexivity]|]. split; vm_compute; reflexivity.
+Qed.
+Definition w_urn : bytes := [117;114;110;58;49;50;58;120;121;122].
+Theorem canonical_reparse_refuted_urn_nid :
+  exists ipq c m raw u, ipq_contract ipq /\ parse c ipq m raw = Some u /\
+    parse c ipq m (canonical m u) = None.
+Proof.
+  exists ip_12, cfg_default, m_get, w_urn. eexists.
+  split; [exact ip_12_contract|]. split; [vm_compute; reflexivity|]. vm_compute. reflexivity.
 Qed.
 
 (* "http://[a:80/" : host "a:80", canonical form "http://a:80/" means host "a" *)
@@ -389,14 +404,6 @@ Proof.
   split; [vm_compute; reflexivity| vm_compute; discriminate].
 Qed.
 
-(* "http://./" again: the canonical form "http:///" is rejected *)
-Theorem canonical_reparse_refuted_empty_host :
-  exists ipq c m raw u, ipq_contract ipq /\ parse c ipq m raw = Some u /\
-    parse c ipq m (canonical m u) = None.
-Proof.
-  exists no_ip, cfg_default, m_get, w_empty_host. eexists.
-  split; [exact no_ip_contract|]. split; [vm_compute; reflexivity|]. vm_compute. reflexivity.
-Qed.
 
 (* ================================================================== *)
 (* RFC-shaped URIs: scheme "://" authority rest — what parse() computes *)
@@ -788,23 +795,30 @@ Proof.
 Qed.
 
 (* per-byte facts about the regenerated Encode tables and PathChars *)
+(* the bytes absolutePath() leaves alone (regenerated: PathChars() plus, since 3db1355, '?') *)
+Definition path_kept : cset := mem_tbl bm_uri_path_set.
+Definition path_kept_is (c : N) : bool := Bool.eqb (path_kept c) (uri_PathChars c || (c =? 63)).
+Lemma path_kept_spec c : c < 256 -> path_kept c = uri_PathChars c || (c =? 63).
+Proof.
+  intros H. apply Bool.eqb_prop. revert c H. apply (forallb_bytes path_kept_is). vm_compute. reflexivity.
+Qed.
 Definition path_byte_ok (c : N) : bool :=
-  negb (uri_PathChars c) ||
+  negb (path_kept c) ||
   (list_eqb (tbl_entry bm_uri_path c) [c] && negb (c =? 0) && negb (is_crlf c) && negb (w_space c)).
 Lemma path_byte_sweep c : c < 256 -> path_byte_ok c = true.
 Proof. apply (forallb_bytes path_byte_ok). vm_compute. reflexivity. Qed.
-Lemma pathchars_small c : uri_PathChars c = true -> c < 256.
+Lemma pathchars_small c : path_kept c = true -> c < 256.
 Proof.
   intros H. destruct (N.lt_ge_cases c 256) as [L|L]; [exact L|].
-  unfold uri_PathChars, mem_tbl in H. rewrite tbl_get_default in H; [discriminate|].
-  assert (Len : lenN uri_PathChars_tbl = 256) by (vm_compute; reflexivity). lia.
+  unfold path_kept, mem_tbl in H. rewrite tbl_get_default in H; [discriminate|].
+  assert (Len : lenN bm_uri_path_set = 256) by (vm_compute; reflexivity). lia.
 Qed.
 Lemma list_eqb_true a : forall b, list_eqb a b = true -> a = b.
 Proof.
   induction a as [|x a IH]; intros [|y b] H; cbn [list_eqb] in H; try discriminate; [reflexivity|].
   apply andb_true_iff in H as [Hx Hr]. apply N.eqb_eq in Hx. subst y. rewrite (IH b Hr). reflexivity.
 Qed.
-Lemma pathchar_facts c : uri_PathChars c = true ->
+Lemma pathchar_facts c : path_kept c = true ->
   tbl_entry bm_uri_path c = [c] /\ (c =? 0) = false /\ is_crlf c = false /\ w_space c = false.
 Proof.
   intros H. pose proof (path_byte_sweep c (pathchars_small c H)) as S. unfold path_byte_ok in S.
@@ -813,26 +827,26 @@ Proof.
   apply list_eqb_true in S1. apply negb_true_iff in S2, S3, S4. repeat split; assumption.
 Qed.
 
-Definition clean_path (p : bytes) : Prop := starts_ch slash p = true /\ forallb uri_PathChars p = true.
+Definition clean_path (p : bytes) : Prop := starts_ch slash p = true /\ forallb path_kept p = true.
 
-Lemma clean_encode p : forallb uri_PathChars p = true -> uri_encode_path p = p.
+Lemma clean_encode p : forallb path_kept p = true -> uri_encode_path p = p.
 Proof.
   unfold uri_encode_path, map_bytes. induction p as [|x p IH]; cbn [forallb map concat]; [reflexivity|].
   intros H. apply andb_true_iff in H as [Hx Hp]. destruct (pathchar_facts x Hx) as [E _].
   rewrite E, (IH Hp). reflexivity.
 Qed.
-Lemma clean_cstr p : forallb uri_PathChars p = true -> cstr p = p.
+Lemma clean_cstr p : forallb path_kept p = true -> cstr p = p.
 Proof.
   induction p as [|x p IH]; cbn [forallb cstr]; [reflexivity|]. intros H.
   apply andb_true_iff in H as [Hx Hp]. destruct (pathchar_facts x Hx) as [_ [E _]]. rewrite E, (IH Hp). reflexivity.
 Qed.
-Lemma clean_span p : forallb uri_PathChars p = true -> fst (span (fun c => negb (is_crlf c)) p) = p.
+Lemma clean_span p : forallb path_kept p = true -> fst (span (fun c => negb (is_crlf c)) p) = p.
 Proof.
   induction p as [|x p IH]; cbn [forallb span]; [reflexivity|]. intros H.
   apply andb_true_iff in H as [Hx Hp]. destruct (pathchar_facts x Hx) as [_ [_ [E _]]]. rewrite E. cbn [negb].
   specialize (IH Hp). destruct (span (fun c => negb (is_crlf c)) p) as [a b]. cbn [fst] in *. rewrite IH. reflexivity.
 Qed.
-Lemma clean_no_ws p : forallb uri_PathChars p = true -> existsb w_space p = false.
+Lemma clean_no_ws p : forallb path_kept p = true -> existsb w_space p = false.
 Proof.
   induction p as [|x p IH]; cbn [forallb existsb]; [reflexivity|]. intros H.
   apply andb_true_iff in H as [Hx Hp]. destruct (pathchar_facts x Hx) as [_ [_ [_ E]]]. rewrite E, (IH Hp). reflexivity.
@@ -858,7 +872,7 @@ Qed.
 Definition settled_host (c : cfg) (h : bytes) : Prop :=
   h <> [] /\ forallb auth_char h = true /\ no_at h = true /\ no_colon h = true /\ starts_ch 91 h = false /\
   lower_host c h = h /\ strip_td h = h /\ has_dotdot h = false /\ starts_dot h = false /\
-  (c_check c = true -> forallb (hostchars c) h = true).
+  (c_check c = true -> forallb (hostchars c) h = true) /\ lenN h < uri_SQUIDHOSTNAMELEN.
 
 Section Reparse.
   Variable ipq : bytes -> ipres.
@@ -881,7 +895,7 @@ Section Reparse.
                 u_port := Some port; u_path := u_path u |}.
   Proof.
     intros Hm Hst Hso Hnone Hurn Hport Hrange Hh Hset [Hp0 Hpc] Hlen.
-    destruct Hh as [Hne [Hha [Hhat [Hhc [Hhb [Hlow [Htd [Hdd [Hsd Hck]]]]]]]]].
+    destruct Hh as [Hne [Hha [Hhat [Hhc [Hhb [Hlow [Htd [Hdd [Hsd [Hck Hhl]]]]]]]]]].
     set (sch := u_scheme u) in *. set (h := u_host u) in *. set (path := u_path u) in *.
     (* the three parts of absolute() *)
     assert (Epath : absolute_path u = path).
@@ -918,7 +932,10 @@ Section Reparse.
                finish c ipq sch login' h port path =
                Some {| u_scheme := sch; u_login := login'; u_host := h; u_num := u_num u;
                        u_port := Some port; u_path := path |}).
-    { intros login'. unfold finish. rewrite Hlow, Htd, Hdd, Hsd. cbn [orb].
+    { intros login'. unfold finish. rewrite Hlow, Htd.
+      assert (Nn : is_nil h || (uri_SQUIDHOSTNAMELEN <=? lenN h) = false).
+      { destruct h as [|h0 h']; [contradiction|]. cbn [is_nil orb]. apply N.leb_gt. exact Hhl. }
+      rewrite Nn, Hdd, Hsd. cbn [orb].
       assert (Ck : c_check c && negb (forallb (hostchars c) h) = false).
       { destruct (c_check c); [rewrite (Hck eq_refl); reflexivity| reflexivity]. }
       rewrite Ck. assert (Pr : (port <? 1) || (65535 <? port) = false) by (clear - Hrange; lia). rewrite Pr.
